@@ -6,6 +6,7 @@ import (
 	"errors"
 	"fmt"
 	"net"
+	"os"
 	"sort"
 	"strings"
 	"sync"
@@ -113,6 +114,12 @@ type Cluster struct {
 	// AnswerRank is the default priority class of answer actors.
 	AnswerRank int
 	// MetaVersionCap lowers the metadata response version (0 = use the request's).
+	Groups            map[string]*Group
+	CoordFaults       []string
+	OffsetFetchFaults []string
+	CommitFaults      []string
+	// CommitGuard lets a group simulation reject commits of stale members/generations
+	CommitGuard func(g *Group, req *sarama.OffsetCommitRequest) sarama.KError
 	// AnswerIdleFetch: let fetches that have nothing to return be answered (long-poll expiry)
 	AnswerIdleFetch bool
 	// BatchesPerFetch > 0: a fetch returns that many whole batches per partition (instead of a byte range)
@@ -244,6 +251,9 @@ func (cl *Cluster) Respond(r *Req, body interface{}) {
 }
 
 func (cl *Cluster) RespondRaw(r *Req, frame []byte) {
+	if os.Getenv("VERIF_LOG") != "" {
+		fmt.Printf("[sim] respond %s %s corr=%d v%d frame=%x\n", r.Conn.Label, kindOf(r.Body), r.CorrelationID, r.Version, frame)
+	}
 	sv := r.Conn.sv
 	go func() { _, _ = sv.Write(frame) }()
 }
@@ -342,6 +352,14 @@ func (cl *Cluster) variants(r *Req) []gx.Variant {
 		})}
 	case *sarama.ProduceRequest:
 		return cl.produceVariants(r, b)
+	case *sarama.FindCoordinatorRequest:
+		return cl.coordVariants(r, b.CoordinatorKey)
+	case *sarama.ConsumerMetadataRequest:
+		return cl.coordVariants(r, b.ConsumerGroup)
+	case *sarama.OffsetFetchRequest:
+		return cl.offsetFetchVariants(r, b)
+	case *sarama.OffsetCommitRequest:
+		return cl.commitVariants(r, b)
 	case *sarama.FetchRequest:
 		return cl.fetchVariants(r, b)
 	case *sarama.OffsetRequest:
@@ -381,4 +399,37 @@ func (cl *Cluster) Metadata(req *sarama.MetadataRequest) *sarama.MetadataRespons
 		}
 	}
 	return m
+}
+
+// PendingDetail describes the pending requests including the content that matters for state keys.
+func (cl *Cluster) PendingDetail() []string {
+	cl.mu.Lock()
+	defer cl.mu.Unlock()
+	var s []string
+	for _, c := range cl.conns {
+		for _, r := range c.pending {
+			d := c.Label + ":" + kindOf(r.Body)
+			if b, ok := r.Body.(*sarama.OffsetCommitRequest); ok {
+				d += fmt.Sprint(sarama.VerifCommitBlocks(b))
+			}
+			s = append(s, d)
+		}
+	}
+	return s
+}
+
+// ConnState summarises dials and which server-side connections are still open (hidden state of the
+// client's broker objects that a canonical state key may need).
+func (cl *Cluster) ConnState() string {
+	cl.mu.Lock()
+	defer cl.mu.Unlock()
+	var s []string
+	for _, c := range cl.conns {
+		st := "open"
+		if c.closed {
+			st = "closed"
+		}
+		s = append(s, c.Label+"="+st)
+	}
+	return strings.Join(s, ",")
 }
